@@ -68,6 +68,9 @@ pub enum Op {
     SpinBurst(u8),
     /// `System::current().arbiter().stop()`: the system arbiter's own loop is told to stop
     StopSysArbiter,
+    /// (second foreign thread only) join an arbiter that nobody has stopped: returns when the
+    /// system stop, issued by somebody else, has ended its loop
+    JoinRunning(usize),
     /// (system thread) drive the system with `block_on` until every arbiter that was registered
     /// when the controller took an Exit has ended its loop
     BlockOnUntilStopped,
@@ -172,6 +175,7 @@ struct State {
     waiting_in_block_on: bool,
     stop_effect_under_block_on: bool,
     spin_bursts: u32,
+    joined_running: bool,
     other_systems: u32,
     /// reference model of the system's command channel: what has been sent and not yet taken
     sysq: std::collections::VecDeque<SysCmd>,
@@ -821,6 +825,17 @@ fn exec_op(sim: &Arc<Sim>, op: &Op, runner: Option<&actix_rt::SystemRunner>) {
                 join_arb(sim, a, false, false);
             }
         }
+        Op::JoinRunning(n) => {
+            // only where somebody else is certain to issue the stop: not on the system thread
+            // (it would never get to run()) and not on foreign thread 0 (it issues the final stop)
+            // ... and only while no stop has been issued: the arbiter then exists before the first
+            // stop, which is therefore certain to reach it
+            let allowed = thread::current().name().map_or(false, |n| n == "rtsim-foreign-1") && sim.st.lock().unwrap().first_stop.is_none();
+            if let (true, Some(a)) = (allowed, pick(*n).filter(|a| *a != usize::MAX)) {
+                sim.st.lock().unwrap().joined_running = true;
+                join_arb(sim, a, true, false);
+            }
+        }
         Op::SystemStop(code) => do_system_stop(sim, *code),
         Op::Burst(n, count) => {
             if let Some(a) = pick(*n) {
@@ -1282,6 +1297,7 @@ fn gen_ops(rng: &mut Rng, n: usize, main: bool, c10: bool) -> Vec<Op> {
                 0..=2 => Op::OtherSystem,
                 3 => Op::SpinBurst(*rng.pick(&[70u8, 100])),
                 4 => Op::StopSysArbiter,
+                5 | 6 if !main => Op::JoinRunning(rng.usize_below(3)),
                 _ => Op::Nop,
             },
             12 => {
@@ -1368,6 +1384,7 @@ impl Engine for RtSim {
                 waiting_in_block_on: false,
                 stop_effect_under_block_on: false,
                 spin_bursts: 0,
+                joined_running: false,
                 other_systems: 0,
                 sysq: Default::default(),
                 registered: Vec::new(),
@@ -1438,6 +1455,9 @@ impl Engine for RtSim {
         if st.spin_bursts > 0 {
             ctx.bump("probe.system_thread_run_queue_loaded");
         }
+        if st.joined_running {
+            ctx.bump("probe.join_waiting_for_system_stop");
+        }
         if st.tasks.iter().any(|t| t.arb == usize::MAX && t.after_explicit_stop) {
             ctx.bump("probe.task_sent_to_stopped_system_arbiter");
         }
@@ -1497,7 +1517,7 @@ impl Engine for RtSim {
     }
     fn required_probes(prop: &str, _tier: Tier) -> Vec<&'static str> {
         if prop == "C09" {
-            vec!["probe.second_stop", "probe.arbiter_struct_dropped", "probe.arbiter_stopped_early", "fault.busy_arbiter", "probe.arbiter_blocked_across_stop", "probe.second_exit_processed", "probe.other_system_between_arbiters", "probe.stop_took_effect_under_block_on", "probe.system_thread_run_queue_loaded"]
+            vec!["probe.second_stop", "probe.arbiter_struct_dropped", "probe.arbiter_stopped_early", "fault.busy_arbiter", "probe.arbiter_blocked_across_stop", "probe.second_exit_processed", "probe.other_system_between_arbiters", "probe.stop_took_effect_under_block_on", "probe.system_thread_run_queue_loaded", "probe.join_waiting_for_system_stop"]
         } else {
             vec!["probe.task_sent_after_stop", "probe.marker_via_current", "fault.task_panic", "probe.prior_system_on_thread", "probe.spawn_refused_before_join", "probe.task_sent_to_stopped_system_arbiter"]
         }
